@@ -55,6 +55,10 @@ fn seg_bytes_strategy() -> impl Strategy<Value = Vec<u8>> {
         1 => Just(b"%2e%2e".to_vec()),
         1 => Just(b"%2F".to_vec()),
         1 => Just(b"a/b".to_vec()),
+        1 => Just(b".. ".to_vec()),
+        1 => Just(b" .".to_vec()),
+        1 => Just(b"\t..\n".to_vec()),
+        1 => Just(b" ".to_vec()),
         1 => Just(vec![0xc3]),          // truncated UTF-8
         1 => Just(vec![0xed, 0xa0, 0x80]), // surrogate
         1 => Just(vec![0xf0, 0x9f, 0x98, 0x80]),
@@ -449,8 +453,82 @@ fn check_live(live: &Live, rt: &tokio::runtime::Runtime, cases: &Vec<PathCase>, 
     })
 }
 
+/// single-segment variables as the handler's typed path extractor delivers them
+#[derive(Clone, Debug, Serialize, Deserialize)]
+struct VarCase {
+    first: SegSpec,
+    second: Option<SegSpec>,
+    trailing: u8,
+}
+
+fn var_table() -> Vec<MEndpoint> {
+    lit_table().into_iter().filter(|e| e.op.starts_with("var_")).collect()
+}
+
+fn check_live_vars(live: &Live, rt: &tokio::runtime::Runtime, c: &VarCase, st: &mut Stats) -> Result<(), Failure> {
+    let mut raw = format!("/x/{}", render_seg(&c.first, 0, &None, 1));
+    if let Some(s2) = &c.second {
+        raw.push('/');
+        raw.push_str(&render_seg(s2, 0, &None, 1));
+    }
+    for _ in 0..(c.trailing % 3) {
+        raw.push('/');
+    }
+    let before = live.server.app_private().entered.load(std::sync::atomic::Ordering::SeqCst);
+    let resp = rt
+        .block_on(http1::oneshot(live.addr, &http1::build_request("GET", &raw, &[], None), false, Duration::from_secs(10)))
+        .map_err(|e| Failure::new("no-response", format!("GET {:?}: {}", raw, e)))?;
+    let after = live.server.app_private().entered.load(std::sync::atomic::Ordering::SeqCst);
+    st.eval();
+    st.count("paths");
+    if resp.header("x-request-id").is_none() {
+        st.count("refused_by_http_layer");
+        ensure!(resp.status >= 400 && after == before, "http-layer", "GET {:?}: {} without request id", raw, resp.status);
+        return Ok(());
+    }
+    match normalise_path(&raw) {
+        NormPath::Reject(why) => {
+            st.count("expect_reject");
+            ensure!(resp.status == 400 && after == before, format!("unsafe-path-dispatched:{}", why), "GET {:?} has a {}: expected 400 and no handler, got {} {}", raw, why, resp.status, truncate(&resp.body_text(), 200));
+        }
+        NormPath::Ok(segs) => {
+            if (segs.len() == 2 || segs.len() == 3) && segs[0] == "x" {
+                st.count("expect_ok");
+                if segs[1..].iter().any(|s| s.trim() != s.as_str() || s.trim_matches('.').trim().is_empty()) {
+                    st.count("value_with_outer_whitespace_or_dots");
+                    st.nontrivial(hash_str(&raw));
+                }
+                ensure!(resp.status == 200, "safe-path-refused", "GET {:?} -> {:?}: got {} {}", raw, segs, resp.status, truncate(&resp.body_text(), 200));
+                let j = resp.json().ok_or_else(|| Failure::new("echo-not-json", raw.clone()))?;
+                let mut want = serde_json::Map::new();
+                want.insert("v1".into(), json!({"One": segs[1]}));
+                if segs.len() == 3 {
+                    want.insert("v2".into(), json!({"One": segs[2]}));
+                }
+                ensure!(
+                    j["vars"] == serde_json::Value::Object(want.clone()),
+                    "wrong-variable-value",
+                    "GET {:?}: the typed path extractor must deliver {}, the handler received {}",
+                    raw,
+                    serde_json::Value::Object(want),
+                    j["vars"]
+                );
+                for v in j["vars"].as_object().into_iter().flat_map(|o| o.values()) {
+                    let s = v["One"].as_str().unwrap_or("x");
+                    ensure!(s != "." && s != ".." && !s.is_empty(), "forbidden-variable-value", "GET {:?}: handler received the variable value {:?}", raw, s);
+                }
+            } else {
+                st.count("expect_miss");
+                ensure!(resp.status == 404 || resp.status == 405, "miss-status", "GET {:?}: {}", raw, resp.status);
+            }
+        }
+    }
+    st.sample(|| json!({"path": raw, "status": resp.status}));
+    Ok(())
+}
+
 pub fn run(ctx: &mut Ctx) {
-    ctx.rule = "paths = 0-5 segments (15%: 6-93 segments, mostly plain filler with up to 3 interesting ones anywhere) over the full byte range (biased to dots, '%', '/', NUL, UTF-8 and broken UTF-8), every byte rendered raw or as %hh in lower/upper/mixed hex, 1-3 (sometimes up to 47) slashes between segments and 0-2 (sometimes up to 47) extra leading/trailing slashes; oracle = reference normaliser (split, drop empty, decode once, refuse dot/non-UTF-8) against a wildcard table and a literal/variable table, plus slash-variant metamorphic relation. non-trivial = path with a dot-segment in an encoded spelling, an encoded slash, a non-UTF-8 segment, a %25 double encoding or more than 32 slash-separated pieces; distinct by raw path".into();
+    ctx.rule = "paths = 0-5 segments (15%: 6-93 segments, mostly plain filler with up to 3 interesting ones anywhere) over the full byte range (biased to dots, '%', '/', NUL, UTF-8 and broken UTF-8), every byte rendered raw or as %hh in lower/upper/mixed hex, 1-3 (sometimes up to 47) slashes between segments and 0-2 (sometimes up to 47) extra leading/trailing slashes; oracle = reference normaliser (split, drop empty, decode once, refuse dot/non-UTF-8) against a wildcard table and a literal/variable table, plus slash-variant metamorphic relation; phase live_variables: /x/{v1} and /x/{v1}/{v2} on a live server, the typed path extractor must deliver exactly the decoded segments (segments with outer whitespace around dots included). non-trivial = path with a dot-segment in an encoded spelling, an encoded slash, a non-UTF-8 segment, a %25 double encoding or more than 32 slash-separated pieces; distinct by raw path".into();
     ctx.assume("for malformed percent escapes only 'no 5xx / no panic' is asserted (the statement is silent on them)");
     ctx.assume("over the wire every byte outside the URI path character set is percent-encoded; targets hyper refuses by itself are not judged");
     // inputs saved by the libFuzzer target fuzz/fuzz_targets/c03_path.rs (replayed, never generated here)
@@ -475,4 +553,19 @@ pub fn run(ctx: &mut Ctx) {
         ctx.phase("live", n, proptest::collection::vec(path_case_strategy(), 1..12), |c, st| check_live(&live, &rt, c, st));
     }
     let _ = ctx.rt.block_on(live.server.close());
+    // single-segment variables through the typed path extractor
+    let live2 = {
+        let _g = ctx.rt.enter();
+        let api = build_api(&var_table()).expect("variable table");
+        let server = start_server(api, DynCtx::default(), Default::default(), None).expect("server");
+        Live { addr: server.local_addr(), server }
+    };
+    let n = ctx.tier.pick(4000, 60000);
+    {
+        let rt = tokio::runtime::Builder::new_current_thread().enable_all().build().unwrap();
+        let strat = (seg_strategy(), proptest::option::of(seg_strategy()), 0u8..3).prop_map(|(first, second, trailing)| VarCase { first, second, trailing });
+        ctx.phase("live_variables", n, strat, |c, st| check_live_vars(&live2, &rt, c, st));
+        ctx.require_frac("live_variables", "value_with_outer_whitespace_or_dots", "paths", 0.03);
+    }
+    let _ = ctx.rt.block_on(live2.server.close());
 }
